@@ -121,7 +121,7 @@ class C09Part(M.MiscPart):
         return extra
 
     def generate(self, rng, tier):
-        n = {"bloom": 30, "tdigest": 24, "density": 30}[self.name] * (1 if tier == "quick" else 8)
+        n = {"bloom": 30, "tdigest": 24, "density": 30}[self.name] * (1 if tier == "quick" else 20)
         hs = [self.gen(rng, tier, self._extra(rng, self.name)) for _ in range(n)]
         if self.name == "bloom":
             # query_and_update() on a filter whose count is stale (after update()) stores the stale count and clears the
